@@ -198,7 +198,7 @@ def local_stage_cases(rng, scratch: Path, rep: Report, n):
         orig_write, orig_copy, orig_replace, orig_unlink = Path.write_bytes, _sh.copyfileobj, Path.replace, Path.unlink
 
         def bad_write(self, data):
-            if str(self).endswith('.tmp'):
+            if str(self).startswith(str(root)):       # whatever file the upload writes first
                 orig_write(self, data[:len(data) // 2])
                 raise exc('injected')
             return orig_write(self, data)
@@ -212,8 +212,8 @@ def local_stage_cases(rng, scratch: Path, rep: Report, n):
             raise exc('injected')
 
         def no_unlink(self, missing_ok=False):
-            if mode == 'kill' and str(self).endswith('.tmp'):
-                return None          # a killed process does not clean up
+            if mode == 'kill' and str(self).startswith(str(root)):
+                return None          # a killed process does not clean up, whatever the file is called
             return orig_unlink(self, missing_ok=missing_ok)
 
         try:
